@@ -1,12 +1,18 @@
 (* C18 — Priming, renaming and type-hint predicates are exact.
    Statements only; proofs in GenProofs/BitsProofs.v (about the definitions
    GENERATED from bitvector.dom_to_width and _type_hints._bitfield_limits on
-   every run), theories/L0Bits/BitsFacts.v and theories/L3Context/*Facts.v. *)
+   every run), GenProofs/PrimeBridge.v (the definitions GENERATED from
+   omega/symbolic/prime.py and the identifier helpers of omega/logic/syntax.py
+   on every run are the hand-written model of L3Context/Prime.v),
+   theories/L0Bits/BitsFacts.v and theories/L3Context/*Facts.v. *)
 From Coq Require Import ZArith List Bool String Lia.
 From Omega Require Import L0Bits.Bits L0Bits.BitsFacts L3Context.Ctx L3Context.CtxFacts
   L3Context.Prime L3Context.PrimeFacts.
+From Omega Require Import L3Context.PyPrims.
 From OmegaGen Require Import BitsGen.
+From OmegaGen Require PrimeGen.
 From OmegaGP Require Import BitsProofs.
+From OmegaGP Require PrimeBridge.
 Import ListNotations.
 Open Scope Z_scope.
 
@@ -212,6 +218,136 @@ Example C18_automaton_hypotheses_satisfiable :
      (fun a => a ("x"%string, 0%nat) && a ("k"%string, 0%nat)) = Some true.
 Proof. split; [exact wf_aut_example|]. split; vm_compute; reflexivity. Qed.
 
+(* ---- the model of prime.py IS the translated code ----------------------------------------
+   gen/PrimeGen.v is regenerated from the current omega/symbolic/prime.py and
+   omega/logic/syntax.py on every run (tools/py2coq_prime.py); each generated
+   function equals the hand-written model the theorems above are about:
+   eighteen of them as functions (Leibniz, by conversion), four at every
+   argument.  A change of prime.py that changes a translated term breaks this
+   theorem. *)
+Theorem C18_prime_model_is_translated_code :
+  PrimeGen.stx_PRIME = PRIME /\
+  PrimeGen.stx_isprimed = isprimed /\
+  PrimeGen.stx_prime = sprime /\
+  PrimeGen.stx_unprime = sunprime /\
+  PrimeGen.stx_prime_vars = map_opt sprime /\
+  PrimeGen.stx_unprime_vars = map_opt sunprime /\
+  PrimeGen.is_variable = is_variable /\
+  PrimeGen.is_constant = is_constant /\
+  PrimeGen.unprimed_support = unprimed_support /\
+  PrimeGen.primed_support = primed_support /\
+  PrimeGen.split_support = split_support /\
+  PrimeGen.rigid_support = rigid_support /\
+  PrimeGen.flexible_support = flexible_support /\
+  PrimeGen.is_state_predicate = is_state_predicate /\
+  PrimeGen.is_proper_action = is_proper_action /\
+  PrimeGen.support_issubset = support_issubset /\
+  PrimeGen.prime = prime_pred /\
+  PrimeGen.unprime = unprime_pred /\
+  (forall t vop action player,
+     PrimeGen.is_action_of_player t vop action player =
+     is_action_of_player t action (vop [player])) /\
+  (forall t u, PrimeGen.is_primed_state_predicate t u = is_primed_state_predicate t u) /\
+  (forall t u, PrimeGen.vars_in_support t u = vars_in_support t u) /\
+  (forall t lt u, PrimeGen.rename_variables t lt u = rename_variables t lt u).
+Proof. exact PrimeBridge.prime_model_is_translated_code. Qed.
+
+(* hence the theorems above hold of the translated code; the two headline
+   ones, restated about the generated functions *)
+Theorem C18_translated_unprime_prime : forall t u, wf_aut t -> uses_only (all_bits t) u ->
+  PrimeGen.is_state_predicate t u = Some true ->
+  exists v w, PrimeGen.prime t u = Some v /\ PrimeGen.unprime t v = Some w /\
+    uses_only (all_bits t) w /\ forall a, w a = u a.
+Proof. exact unprime_prime. Qed.
+
+Theorem C18_translated_rename_variables_sem : forall t lt u r,
+  wf_tbl t -> uses_only (all_bits t) u -> PrimeGen.rename_variables t lt u = Some r ->
+  exists lp, map_opt (fun kv => match sprime (fst kv), sprime (snd kv) with
+                                | Some k, Some v => Some (k, v)
+                                | _, _ => None
+                                end) lt = Some lp /\
+    let lt' := dict_update String.eqb lt lp in
+    (ren_ok t lt' -> forall f, sem t r f = sem t u (frename f lt')) /\
+    (forall s, ctx_support t r = Some s -> forall k, In k s -> ~ In k (map fst lt')).
+Proof.
+  intros t lt u r. rewrite PrimeBridge.bridge_rename_variables.
+  apply rename_variables_sem.
+Qed.
+
+(* ---- the four functions that used to be tied by correspondence only ----------------------
+   (stated about the generated functions; [s] is the reported support) *)
+
+(* support_issubset: exactly inclusion of the support *)
+Theorem C18_support_issubset_spec : forall t u vrs s, ctx_support t u = Some s ->
+  exists b, PrimeGen.support_issubset t u vrs = Some b /\
+    (b = true <-> forall x, In x s -> In x vrs).
+Proof. exact PrimeBridge.support_issubset_spec. Qed.
+
+(* is_primed_state_predicate: true iff every unprimed identifier of the
+   support is a rigid constant (has no primed twin in the table) *)
+Theorem C18_is_primed_state_predicate_spec : forall t u s, ctx_support t u = Some s ->
+  exists b, PrimeGen.is_primed_state_predicate t u = Some b /\
+    (b = true <-> forall x, In x s -> isprimed x = false -> flexible t x = false).
+Proof. exact PrimeBridge.is_primed_state_predicate_spec. Qed.
+
+(* is_action_of_player: true iff every primed identifier of the support is the
+   primed twin of a variable of the player; refused (stx.prime asserts) iff a
+   variable of the player is primed *)
+Theorem C18_is_action_of_player_spec : forall t vop action player s,
+  ctx_support t action = Some s ->
+  ((forall v, In v (vop [player]) -> isprimed v = false) ->
+   exists b, PrimeGen.is_action_of_player t vop action player = Some b /\
+     (b = true <-> forall x, In x s -> isprimed x = true ->
+                     exists v, In v (vop [player]) /\ x = (v ++ tick)%string)) /\
+  ((exists v, In v (vop [player]) /\ isprimed v = true) ->
+   PrimeGen.is_action_of_player t vop action player = None).
+Proof. exact PrimeBridge.is_action_of_player_spec. Qed.
+
+(* vars_in_support: the unprimed names of the flexible variables that occur
+   unprimed, and of every identifier that occurs primed; no duplicates; the
+   function's own final assertion never fires *)
+Theorem C18_vars_in_support_spec : forall t u s, ctx_support t u = Some s ->
+  (forall x, In x s -> isprimed x = true -> exists y, sunprime x = Some y) ->
+  exists l, PrimeGen.vars_in_support t u = Some l /\ NoDup l /\
+    forall y, In y l <->
+      (In y s /\ isprimed y = false /\ flexible t y = true) \/
+      (exists x, In x s /\ isprimed x = true /\ sunprime x = Some y).
+Proof. exact PrimeBridge.vars_in_support_spec. Qed.
+
+(* on an automaton's table the side condition holds *)
+Theorem C18_vars_in_support_automaton : forall t u,
+  wf_aut t -> uses_only (all_bits t) u ->
+  exists s l, ctx_support t u = Some s /\ PrimeGen.vars_in_support t u = Some l /\
+    NoDup l /\
+    forall y, In y l <->
+      (In y s /\ isprimed y = false /\ flexible t y = true) \/
+      (exists x, In x s /\ isprimed x = true /\ sunprime x = Some y).
+Proof. exact PrimeBridge.vars_in_support_automaton. Qed.
+
+(* joint_support (translated, no hand-written model): the union of the supports *)
+Theorem C18_joint_support_spec : forall t nodes,
+  ((forall u, In u nodes -> exists s, ctx_support t u = Some s) ->
+   exists l, PrimeGen.joint_support t nodes = Some l /\ NoDup l /\
+     forall x, In x l <->
+       exists u s, In u nodes /\ ctx_support t u = Some s /\ In x s) /\
+  ((exists u, In u nodes /\ ctx_support t u = None) ->
+   PrimeGen.joint_support t nodes = None).
+Proof. exact PrimeBridge.joint_support_spec. Qed.
+
+(* the hypotheses are satisfiable, and the translated functions compute *)
+Example C18_translated_functions_run :
+  let t := [("x"%string, DBool); ("x'"%string, DBool); ("k"%string, DBool)] in
+  let u : pred := fun a => a ("x'"%string, 0%nat) && a ("k"%string, 0%nat) in
+  ctx_support t u = Some ["x'"%string; "k"%string] /\
+  PrimeGen.vars_in_support t u = Some ["x"%string] /\
+  PrimeGen.is_primed_state_predicate t u = Some true /\
+  PrimeGen.is_action_of_player t (fun _ => ["x"%string]) u "sys"%string = Some true /\
+  PrimeGen.is_action_of_player t (fun _ => ["k"%string]) u "env"%string = Some false /\
+  PrimeGen.support_issubset t u ["k"%string] = Some false /\
+  PrimeGen.joint_support t [u; (fun a => a ("x"%string, 0%nat))] =
+    Some ["x'"%string; "k"%string; "x"%string].
+Proof. vm_compute. repeat split; reflexivity. Qed.
+
 Print Assumptions C18_declaration_total.
 Print Assumptions C18_hint_representable.
 Print Assumptions C18_limits_exact.
@@ -229,3 +365,12 @@ Print Assumptions C18_type_hint_sem.
 Print Assumptions C18_type_action_sem.
 Print Assumptions C18_implies_type_hints_spec.
 Print Assumptions C18_rename_variables_sem.
+Print Assumptions C18_prime_model_is_translated_code.
+Print Assumptions C18_translated_unprime_prime.
+Print Assumptions C18_translated_rename_variables_sem.
+Print Assumptions C18_support_issubset_spec.
+Print Assumptions C18_is_primed_state_predicate_spec.
+Print Assumptions C18_is_action_of_player_spec.
+Print Assumptions C18_vars_in_support_spec.
+Print Assumptions C18_vars_in_support_automaton.
+Print Assumptions C18_joint_support_spec.
